@@ -148,6 +148,26 @@ def purity(an: Analysis, rep, rule: str, entries, versions=((3, 10),)):
                     rep.add(rule, f"{m['fn']}::{norm_src(node)}", False, loc(mod, node),
                             f"{m['kind']} on a module-level object (created at {bad[0][1][0]}:{bad[0][1][1]}" + ") that survives the call: later calls see state left by earlier ones"
                             if bad[0][0] == "obj" else f"{m['kind']} on {bad[0][0]} {bad[0][1]}", config=entry)
+    # a module-level iterator (zip / map / filter / iter / enumerate / reversed / generator expression) is state: the first call that walks it uses it up
+    seen_fn = set()
+    for entry in entries:
+        for V in versions:
+            for f in an.closure(entry, V):
+                if f.qual in seen_fn or not isinstance(f.node, (ast.FunctionDef, ast.AsyncFunctionDef, ast.Lambda)):
+                    continue
+                seen_fn.add(f.qual)
+                a = f.node.args
+                local = {x.arg for x in a.posonlyargs + a.args + a.kwonlyargs} | {n.id for n in ast.walk(f.node) if isinstance(n, ast.Name) and isinstance(n.ctx, ast.Store)}
+                for n in ast.walk(f.node):
+                    if isinstance(n, ast.Name) and isinstance(n.ctx, ast.Load) and n.id not in local:
+                        vals = getattr(f.module, "assigns", {}).get(n.id, [])
+                        for v in vals:
+                            one_shot = isinstance(v, ast.GeneratorExp) or (isinstance(v, ast.Call) and isinstance(v.func, ast.Name)
+                                                                           and v.func.id in ("zip", "map", "filter", "iter", "enumerate", "reversed"))
+                            if one_shot:
+                                rep.add(rule, f"{f.qual}::module-level iterator {n.id}", False, loc(f.module, n),
+                                        f"`{n.id} = {norm_src(v)[:70]}` at module level is an iterator, not a table: whatever walks it first consumes it, so the same call gives a "
+                                        f"different result (or raises) the second time", config=entry)
     rep.add(rule, "closure keeps no state between calls", True, "code_data/", f"{n_fn} function activations in the closures of {list(entries)} examined", nontrivial=False)
 
 
